@@ -20,13 +20,19 @@ REQUIRED = ['Ems.C15.index_json_roundtrip', 'Ems.C15.features_spec', 'Ems.C15.fe
             'Ems.C15.feature_index_identifies', 'Ems.C15.recorded_index_roundtrip', 'Ems.C15.multipolygon_spec',
             'Ems.C15.dbf_record_spec', 'Ems.C15.dbf_count']
 RULE = ('datasets of every convention (holes, invalid cells, multi-kind native indexes, sheared and concave cells) x the four '
-        'formats: written with the real writer (library functions and the export-geometry command), read back with an '
-        'independent reader (json, pyshp Reader, shapely.from_wkt / from_wkb) and compared with the model\'s feature list; '
-        'oracle: the cells with polygons, in linear order, identical coordinates, linear_index and native index identify '
-        'the same cell (ravel_index(index) == linear_index). Non-trivial: a dataset with at least one cell without polygon '
-        'or a kinded native index; distinct by (recipe, format).')
+        'formats: written with the real writer (library functions and the export-geometry command, every format in turn), read '
+        'back from exactly the path exported to with an independent reader (json, pyshp Reader on the three files opened by '
+        'name, shapely.from_wkt / from_wkb) and compared with the model\'s feature list; the export target is an input too '
+        '(plain / dotted stems such as grid.v2.shp, spaces, non-ASCII, dotted directories, str / pathlib.Path, all formats '
+        'under one base name side by side); a size ladder of large datasets past 2^10, 2^12, 2^13, 10^4 cells (thorough: '
+        '2^16) of rotating conventions; oracle: the cells with polygons, in linear order, identical coordinates, linear_index '
+        'and native index identify the same cell (ravel_index(index) == linear_index, and index == the row-major position '
+        'in the generator\'s grid). Non-trivial: a dataset with at least one cell without polygon or a kinded native index; '
+        'distinct by (recipe, format).')
 TRUSTED = ['json, pyshp, shapely WKT/WKB readers and writers (byte formats are the libraries\' business)']
-ASSUMPTIONS = ['shapefile rings are compared up to rotation and direction (the format prescribes ring orientation); other formats exactly']
+ASSUMPTIONS = ['shapefile rings are compared up to rotation and direction (the format prescribes ring orientation); other formats exactly',
+               '"reading the file back" reads the file at exactly the path handed to the writer; for a Shapefile target X.shp that is '
+               'the file set X.shp, X.shx, X.dbf']
 
 STYLE = {'cf1d': 'bare', 'cf2d': 'bare', 'shoc_simple': 'bare', 'shoc_standard': 'kinded', 'ugrid': 'kinded'}
 
@@ -54,9 +60,113 @@ def idx_json(v) -> str:
     return json.dumps(v, separators=(',', ':'))
 
 
-def examine(ctx, recipe, items) -> None:
+# ---- where the export is written: the target's name is an input of the export like any other -------------------
+# (a file set named after a version / a date has dots in its stem; every format is written under the same base name,
+# next to the others, as someone exporting "all formats" does)
+PLAIN_STEMS = ['g', 'out', 'cells_2', 'my grid', 'réseau-2']
+DOTTED_STEMS = ['grid.v2', 'gbr4_v2.0', 'cells.2024-06', 'a.b.c', 'out.shp.bak', '.hidden']
+DIRS = ['', '', 'run.1', 'v2.0 out']
+FORMATS = ('geojson', 'shapefile', 'wkt', 'wkb')
+PLAIN_EXPORT = {'stem': 'g', 'dir': '', 'as_path': False, 'json_ext': '.geojson', 'cli': None}
+
+
+def random_export(rng, k: int) -> dict:
+    """the file names of one case (all randomness here, so that a replay writes to the same names)"""
+    dotted = rng.random() < 0.45
+    return {
+        'stem': rng.choice(DOTTED_STEMS if dotted else PLAIN_STEMS),
+        'dir': rng.choice(DIRS),
+        'as_path': rng.random() < 0.5,                 # pathlib.Path / str
+        'json_ext': rng.choice(['.geojson', '.geojson', '.json']),
+        # the command line writes the same file: one format per case, four cases in ten
+        'cli': FORMATS[k % 4] if rng.random() < 0.4 else None,
+    }
+
+
+def ext_of(fmt: str, export: dict) -> str:
+    return {'geojson': export.get('json_ext', '.geojson'), 'shapefile': '.shp', 'wkt': '.wkt', 'wkb': '.wkb'}[fmt]
+
+
+def listing(wd: str) -> str:
+    out = []
+    for root, _, files in os.walk(wd):
+        out += [os.path.relpath(os.path.join(root, f), wd) for f in files]
+    return ', '.join(sorted(out)) or '(empty)'
+
+
+def item_desc(desc: dict, line: str, fmt: str) -> dict:
+    """what a replay needs to run one model line again (the line itself is rebuilt from the recipe when it is long)"""
+    return {**desc, 'format': fmt, **({'op': line} if len(line) <= 20000 else {})}
+
+
+class NotAtTarget(Exception):
+    pass
+
+
+def need(path: str) -> str:
+    if not os.path.isfile(path):
+        raise NotAtTarget(os.path.basename(path))
+    return path
+
+
+def read_geojson(path: str):
+    """[(linear_index, index, ring)] of the file at exactly `path`, and the parsed document"""
+    with open(need(path)) as f:
+        data = json.load(f)
+    feats = [(f['properties']['linear_index'], f['properties']['index'],
+              ring_of_coords(f['geometry']['coordinates'][0])) for f in data['features']]
+    return feats, data
+
+
+def read_shapefile(path: str):
+    """[(name, linear_index, index-or-None, index text, ring)] of the file set whose .shp is exactly `path`; the three
+    files are opened by name here (the reader's own derivation of file names plays no part)"""
+    base = path[:-len('.shp')]
+    with open(need(path), 'rb') as shp, open(need(base + '.shx'), 'rb') as shx, open(need(base + '.dbf'), 'rb') as dbf:
+        rd = shapefile.Reader(shp=shp, shx=shx, dbf=dbf)
+        recs = [list(r) for r in rd.records()]
+        shapes = [list(sh.points) for sh in rd.shapes()]
+    if len(recs) != len(shapes):
+        raise ValueError(f'{len(recs)} records for {len(shapes)} shapes')
+    out = []
+    for r, pts in zip(recs, shapes):
+        try:
+            idx = json.loads(r[2])
+        except Exception:
+            idx = None
+        out.append((r[0], r[1], idx, r[2], ring_of_coords(pts)))
+    return out
+
+
+def read_members(path: str, fmt: str):
+    with open(need(path), 'rb') as f:
+        blob = f.read()
+    geom = shapely.from_wkt(blob.decode()) if fmt == 'wkt' else shapely.from_wkb(blob)
+    return [ring_of_coords(g.exterior.coords) for g in geom.geoms], blob
+
+
+def read_back(ctx, d, wd, path, fmt, who='the export'):
+    """what the file at `path` holds, or None after reporting why it cannot be read back"""
+    try:
+        if fmt == 'geojson':
+            return read_geojson(path)
+        if fmt == 'shapefile':
+            return read_shapefile(path)
+        return read_members(path, fmt)
+    except NotAtTarget as e:
+        ctx.oracle_fail(f'{fmt}-not-at-target', d,
+                        f'{who} to {os.path.relpath(path, wd)!r} left no file {str(e)!r}; the directory holds: {listing(wd)}')
+    except Exception as e:
+        ctx.oracle_fail(f'{fmt}-unreadable', d,
+                        f'the {fmt} file {who} wrote cannot be read back: {type(e).__name__}: {str(e)[:200]}')
+    return None
+
+
+def examine(ctx, recipe, items, export=None) -> None:
+    import pathlib
     from emsarray.operations import geometry
     from emsarray.cli import main as cli_main
+    export = dict(PLAIN_EXPORT if export is None else export)
     built = G.build(recipe)
     c = G.bind(built)
     ds = built.ds
@@ -66,85 +176,97 @@ def examine(ctx, recipe, items) -> None:
     rings = S.rings_str(kept)
     spec = built.grids_spec()
     style = STYLE[built.conv]
-    desc = {'recipe': recipe}
+    desc = {'recipe': recipe, 'export': export}
     expected = [(n, q) for n, q in enumerate(kept) if q is not None]
     if any(q is None for q in kept) or style == 'kinded':
         ctx.nontrivial(str(recipe))
     ctx.count(f'conv:{built.conv}')
+    ctx.count('target:' + ('dotted-stem' if '.' in export['stem'] else 'plain-stem'))
+    ctx.count('cells:' + ('<=1024' if len(kept) <= 1024 else '>1024' if len(kept) <= 4096 else '>4096'
+                          if len(kept) <= 8192 else '>8192' if len(kept) <= 65536 else '>65536'))
+    writers = {'geojson': geometry.write_geojson, 'shapefile': geometry.write_shapefile,
+               'wkt': geometry.write_wkt, 'wkb': geometry.write_wkb}
+    lines = {'geojson': f'features {spec} {built.default_kind} {style} {rings}',
+             'shapefile': f'dbf {spec} {built.default_kind} {style} {rings}',
+             'wkt': f'members {rings}', 'wkb': f'members {rings}'}
     with CG.WorkDir() as wd:
-        # ---- GeoJSON ---------------------------------------------------------------------
-        p = os.path.join(wd, 'g.geojson')
-        geometry.write_geojson(ds, p)
-        data = json.load(open(p))
-        feats = data['features']
-        out = '|'.join(
-            f"{f['properties']['linear_index']};{idx_json(f['properties']['index'])};"
-            f"{S.ring_str(ring_of_coords(f['geometry']['coordinates'][0]))}" for f in feats) or '(none)'
-        line = f'features {spec} {built.default_kind} {style} {rings}'
-        items.append((line, out, {**desc, 'op': line, 'format': 'geojson'}))
-        oracle_features(ctx, desc, 'geojson', c, built, expected,
-                        [(f['properties']['linear_index'], f['properties']['index'],
-                          ring_of_coords(f['geometry']['coordinates'][0])) for f in feats], exact=True)
-        # ---- Shapefile --------------------------------------------------------------------
-        p = os.path.join(wd, 's.shp')
-        geometry.write_shapefile(ds, p)
-        rd = shapefile.Reader(p)
-        recs = rd.records()
-        shapes = rd.shapes()
-        rd.close()
-        out = '|'.join(f"{r[0]};{'-' if r[1] is None else int(r[1])};{idx_json(json.loads(r[2])) if r[2] else 'ERR'}" for r in recs) or '(none)'
-        line = f'dbf {spec} {built.default_kind} {style} {rings}'
-        items.append((line, out, {**desc, 'op': line, 'format': 'shapefile'}))
-        got = []
-        for r, sh in zip(recs, shapes):
+        outdir = os.path.join(wd, export['dir']) if export['dir'] else wd
+        os.makedirs(outdir, exist_ok=True)
+        target = {fmt: os.path.join(outdir, export['stem'] + ext_of(fmt, export)) for fmt in FORMATS}
+        # ---- every format is written first (under one base name, side by side), then every file is read back from
+        # exactly the path it was exported to ----
+        written = {}
+        for fmt in FORMATS:
             try:
-                idx = json.loads(r[2])
-            except Exception:
-                idx = None
-            got.append((r[1], idx, ring_of_coords(sh.points)))
-        oracle_features(ctx, desc, 'shapefile', c, built, expected, got, exact=False)
-        for r, (n, _) in zip(recs, expected):
-            if r[0] != f'polygon{n}':
-                ctx.oracle_fail('shapefile-name', {**desc, 'format': 'shapefile'}, f'record name {r[0]} for cell {n}')
-                break
-        # ---- WKT / WKB ---------------------------------------------------------------------
-        for fmt, writer, reader in (('wkt', geometry.write_wkt, lambda b: shapely.from_wkt(b.decode())),
-                                    ('wkb', geometry.write_wkb, shapely.from_wkb)):
-            p = os.path.join(wd, 'm.' + fmt)
-            writer(ds, p)
-            try:
-                geom = reader(open(p, 'rb').read())
-                members = [ring_of_coords(g.exterior.coords) for g in geom.geoms]
+                writers[fmt](ds, pathlib.Path(target[fmt]) if export['as_path'] else target[fmt])
+                written[fmt] = True
             except Exception as e:
-                ctx.oracle_fail(f'{fmt}-unreadable', {**desc, 'format': fmt},
-                                f'the {fmt.upper()} file cannot be read back: {type(e).__name__}: {str(e)[:200]}')
-                line = f'members {rings}'
-                items.append((line, 'UNREADABLE', {**desc, 'op': line, 'format': fmt}))
-                continue
-            out = '|'.join(S.ring_str(m) for m in members) or '(none)'
-            line = f'members {rings}'
-            items.append((line, out, {**desc, 'op': line, 'format': fmt}))
-            if members != [util.expected_ring(q) for _, q in expected]:
-                ctx.oracle_fail(f'{fmt}-members-differ', {**desc, 'format': fmt},
-                                f'{len(members)} members read back, {len(expected)} cells have polygons, or coordinates differ')
-        # ---- the command line writes the same files -------------------------------------------------
-        if ctx.rng.random() < 0.4:
+                written[fmt] = False
+                ctx.oracle_fail(f'{fmt}-export-raised', {**desc, 'format': fmt},
+                                f'writing {os.path.basename(target[fmt])!r} raised {type(e).__name__}: {str(e)[:200]}')
+        # ---- the command line writes the same file (same file name, its own directory) -------------------------
+        cli_fmt = export.get('cli')
+        cli_path = None
+        if cli_fmt:
             src = os.path.join(wd, 'in.nc')
             # (coordinates packed / numerically filled in the file: what the command reads must be the decoded values)
             G.pack_coordinates(ds).to_netcdf(src)
-            p2 = os.path.join(wd, 'cli.geojson')
+            os.makedirs(os.path.join(wd, 'cli'))
+            cli_path = os.path.join(wd, 'cli', os.path.basename(target[cli_fmt]))
             try:
-                cli_main(['export-geometry', src, p2])
+                cli_main(['export-geometry', src, cli_path])
                 code = 0
             except SystemExit as e:
                 code = e.code or 0
+            except Exception as e:
+                code = f'{type(e).__name__}: {str(e)[:200]}'
             ctx.evaluated()
-            if code != 0 or not os.path.exists(p2):
-                ctx.oracle_fail('cli-export-failed', desc, f'emsarray export-geometry exited {code}')
-            else:
-                d2 = json.load(open(p2))
-                if d2 != data:
-                    ctx.oracle_fail('cli-export-differs', desc, 'export-geometry wrote a different GeoJSON than write_geojson')
+            if code != 0:
+                ctx.oracle_fail('cli-export-failed', {**desc, 'format': cli_fmt}, f'emsarray export-geometry exited {code}')
+                cli_path = None
+        got = {}
+        for fmt in FORMATS:
+            got[fmt] = read_back(ctx, {**desc, 'format': fmt}, wd, target[fmt], fmt) if written[fmt] else None
+            if got[fmt] is None:
+                items.append((lines[fmt], 'UNREADABLE', item_desc(desc, lines[fmt], fmt)))
+        # ---- GeoJSON ---------------------------------------------------------------------
+        if got['geojson'] is not None:
+            feats, _ = got['geojson']
+            out = '|'.join(f"{lin};{idx_json(idx)};{S.ring_str(ring)}" for lin, idx, ring in feats) or '(none)'
+            items.append((lines['geojson'], out, item_desc(desc, lines['geojson'], 'geojson')))
+            oracle_features(ctx, desc, 'geojson', c, built, expected, feats, exact=True)
+        # ---- Shapefile --------------------------------------------------------------------
+        if got['shapefile'] is not None:
+            recs = got['shapefile']
+            out = '|'.join(f"{name};{'-' if lin is None else int(lin)};{idx_json(idx) if text else 'ERR'}"
+                           for name, lin, idx, text, _ in recs) or '(none)'
+            items.append((lines['shapefile'], out, item_desc(desc, lines['shapefile'], 'shapefile')))
+            oracle_features(ctx, desc, 'shapefile', c, built, expected,
+                            [(lin, idx, ring) for _, lin, idx, _, ring in recs], exact=False)
+            for (name, *_), (n, _) in zip(recs, expected):
+                if name != f'polygon{n}':
+                    ctx.oracle_fail('shapefile-name', {**desc, 'format': 'shapefile'}, f'record name {name} for cell {n}')
+                    break
+        # ---- WKT / WKB ---------------------------------------------------------------------
+        for fmt in ('wkt', 'wkb'):
+            if got[fmt] is None:
+                continue
+            members, _ = got[fmt]
+            out = '|'.join(S.ring_str(m) for m in members) or '(none)'
+            items.append((lines[fmt], out, item_desc(desc, lines[fmt], fmt)))
+            if members != [util.expected_ring(q) for _, q in expected]:
+                ctx.oracle_fail(f'{fmt}-members-differ', {**desc, 'format': fmt},
+                                f'{len(members)} members read back, {len(expected)} cells have polygons, or coordinates differ')
+        # ---- what the command wrote reads back as what the library wrote ------------------------------------
+        if cli_path is not None:
+            d = {**desc, 'format': cli_fmt}
+            theirs = read_back(ctx, d, wd, cli_path, cli_fmt, who='export-geometry')
+            ours = got[cli_fmt]
+            if theirs is not None and ours is not None:
+                same = (theirs[1] == ours[1]) if cli_fmt != 'shapefile' else (theirs == ours)
+                if not same:
+                    ctx.oracle_fail('cli-export-differs', d,
+                                    f'export-geometry wrote a different {cli_fmt} file than the library function')
 
 
 def oracle_features(ctx, desc, fmt, c, built, expected, got, exact: bool) -> None:
@@ -152,6 +274,8 @@ def oracle_features(ctx, desc, fmt, c, built, expected, got, exact: bool) -> Non
     if len(got) != len(expected):
         ctx.oracle_fail(f'{fmt}-feature-count', d, f'{len(got)} features for {len(expected)} cells with polygons')
         return
+    shape = built.grids[built.default_kind][1]
+    kinded = STYLE[built.conv] == 'kinded'
     for (lin, idx, ring), (n, q) in zip(got, expected):
         if lin is None or int(lin) != n:
             ctx.oracle_fail(f'{fmt}-linear-index', d, f'feature of cell {n} records linear_index {lin}')
@@ -172,6 +296,16 @@ def oracle_features(ctx, desc, fmt, c, built, expected, got, exact: bool) -> Non
             back = f'ERR {type(e).__name__}'
         if back != n:
             ctx.oracle_fail(f'{fmt}-native-index', d, f'cell {n}: recorded index {idx} identifies cell {back}')
+            return
+        # ... and is the position of cell n in the generator's own grid (row-major over the default grid's shape)
+        truth, rest = [], n
+        for size in reversed(shape):
+            truth.insert(0, rest % size)
+            rest //= size
+        if kinded:
+            truth.insert(0, built.default_kind)
+        if list(idx) != truth:
+            ctx.oracle_fail(f'{fmt}-native-index', d, f'cell {n}: recorded index {idx}, the cell is {truth}')
             return
 
 
@@ -194,11 +328,67 @@ def make_recipe(ctx, k):
     return recipe
 
 
+# ---- the size ladder: datasets past the sizes at which code that works a block / chunk of cells at a time starts
+# its second block (2^10, 2^12, 2^13, 10^4; the thorough tier also 2^16).  Any number of cells is in the property. ----
+BANDS_QUICK = [(1025, 4096), (4097, 8192), (10001, 12000)]
+BANDS_THOROUGH = BANDS_QUICK + [(1025, 4096), (4097, 8192), (8193, 10000), (65537, 70000)]
+
+
+def large_recipe(rng, conv: str, ncells: int) -> dict:
+    """a dataset of at least `ncells` cells of convention `conv` (same recipe vocabulary as the small ones)"""
+    root = max(2, int(ncells ** 0.5))
+    ny = rng.randint(max(2, root // 3), root + root // 2)
+    nx = -(-ncells // ny)
+    if rng.random() < 0.5:
+        ny, nx = nx, ny
+    if conv == 'cf1d':
+        r = G.random_cf1d(rng, max_n=3)
+        r['lat'] = G._axis(rng, ny, rng.random() < 0.5)
+        r['lon'] = G._axis(rng, nx, rng.random() < 0.5)
+        return r
+    if conv in ('cf2d', 'shoc_simple'):
+        r = G.random_cf2d(rng, conv, max_n=3, holes=False)
+        r['ny'], r['nx'] = ny, nx
+        cells = rng.sample(range(ny * nx), rng.randint(0, 40))
+        if cells:
+            r['holes'] = [[n // nx, n % nx] for n in sorted(cells)]
+        if r['bounds'] == 'stored' and rng.random() < 0.5:
+            r['twist'] = [[rng.randrange(ny), rng.randrange(nx)]]
+        return r
+    if conv == 'shoc_standard':
+        r = G.random_shoc_standard(rng, max_n=3, holes=False)
+        r['ny'], r['nx'] = ny, nx
+        nodes = rng.sample(range((ny + 1) * (nx + 1)), rng.randint(0, 12))
+        if nodes:
+            r['masked_nodes'] = [[n // (nx + 1), n % (nx + 1)] for n in sorted(nodes)]
+        return r
+    r = G.random_ugrid(rng, max_w=2, max_h=2, coords_as='vars')
+    shear = None
+    if rng.random() < 0.6:
+        while True:
+            shear = [rng.randint(-2, 2) for _ in range(4)]
+            if shear[0] * shear[3] - shear[1] * shear[2] != 0:
+                break
+    # (a lattice cell gives 1.2 faces on average and one in ten is dropped: at least ncells faces)
+    mesh = G.gen_mesh(rng, nx, ny, shear=shear)
+    r['nodes'], r['faces'] = mesh['nodes'], mesh['faces']
+    return r
+
+
 def run(ctx) -> None:
     items: list = []
+    rng = ctx.rng
     for k in range(ctx.budget(80, 600)):
         recipe = make_recipe(ctx, k)
-        ctx.guarded(lambda: examine(ctx, recipe, items), {'recipe': recipe})
+        export = random_export(rng, k)
+        ctx.guarded(lambda: examine(ctx, recipe, items, export), {'recipe': recipe, 'export': export})
+    bands = BANDS_THOROUGH if ctx.thorough else BANDS_QUICK
+    first = rng.randrange(len(G.CONVS))
+    for k in range(ctx.budget(3, 7)):
+        lo, hi = bands[k % len(bands)]
+        recipe = large_recipe(rng, G.CONVS[(first + k) % len(G.CONVS)], rng.randint(lo, hi))
+        export = {**random_export(rng, k), 'cli': None}
+        ctx.guarded(lambda: examine(ctx, recipe, items, export), {'recipe': recipe, 'export': export})
     if ctx.searching and ctx.driver is None:
         ctx.evaluated(len(items))
         return
@@ -207,15 +397,23 @@ def run(ctx) -> None:
 
 def run_one(ctx, inp):
     out = {}
-    if inp.get('op') and ctx.driver:
-        out['model'] = ctx.model([inp['op']])[0]
     items: list = []
     sub = type(ctx)(ctx.prop, ctx.tier, ctx.seed)
     sub.known = []
-    examine(sub, inp['recipe'], items)
+    examine(sub, inp['recipe'], items, inp.get('export'))
     for line, impl, d in items:
-        if line == inp.get('op') and d.get('format') == inp.get('format'):
-            out['impl'] = impl
+        if d.get('format') == inp.get('format') and inp.get('op') in (None, line):
+            model = ctx.model([line])[0] if ctx.driver else None
+            # (long outputs are shown around the first place where they differ)
+            k = next((j for j, (a, b) in enumerate(zip(impl, model or impl)) if a != b), min(len(impl), len(model or impl)))
+            lo = max(0, k - 300) if model not in (None, impl) else 0
+
+            def window(t):
+                return t if len(t) <= 2000 else f'[{len(t)} characters, from {lo}] ' + t[lo:lo + 1200]
+            out['impl'] = window(impl)
+            if model is not None:
+                out['model'] = window(model)
+            break
     if sub.oracle_failures:
         out['oracle'] = '; '.join(f"{f['signature']}: {f['message'][:200]}" for f in sub.oracle_failures[:3])
     return out
